@@ -49,10 +49,8 @@ theorem C04_starts_once (s0 s : Sys) (hw : WFConfig s0) (h : ReachOk s0 s) :
     s.starts.Nodup :=
   reach_starts_nodup s0 s hw h
 
-/-- C04: no observation is admitted twice. -/
--- CORRECTED: stated over `ReachOk` like the others (the proof is one induction over the run for
--- the whole system invariant; the admission clauses themselves do not depend on the restriction).
-theorem C04_admitted_once (s0 s : Sys) (hw : WFConfig s0) (h : ReachOk s0 s) :
+/-- C04: no observation is admitted twice (any oracle: no restriction needed). -/
+theorem C04_admitted_once (s0 s : Sys) (hw : WFConfig s0) (h : Reach s0 s) :
     s.admitted.Nodup :=
   reach_admitted_nodup s0 s hw h
 
@@ -75,10 +73,6 @@ theorem C01_free_machine_idle_shipped (s0 s : Sys) (hw : WFConfig s0) (ha : s0.a
 theorem C04_starts_once_shipped (s0 s : Sys) (hw : WFConfig s0) (ha : s0.alg ≠ .oracle)
     (h : Reach s0 s) : s.starts.Nodup :=
   reach_starts_nodup s0 s hw (h.toOk ha)
-
-theorem C04_admitted_once_shipped (s0 s : Sys) (hw : WFConfig s0) (ha : s0.alg ≠ .oracle)
-    (h : Reach s0 s) : s.admitted.Nodup :=
-  reach_admitted_nodup s0 s hw (h.toOk ha)
 
 /-- C01/C04: an allocation that is rejected with an error starts nothing and
 leaves the pools as they were. -/
